@@ -27,9 +27,9 @@ type C04Case struct {
 	// Deep > 0: the state is ONE tree of 2^Deep leaves of which only leaf 0 and its path are known
 	// (a light client's view): true claims exist for a node on every row up to Deep. Stump verifiers
 	// get the one-root stump, the map forest is NewMapPollardFromRoots of it. Overrides the above.
-	Deep       int      `json:"deep,omitempty"`
-	Adds       int      `json:"adds,omitempty"` // additions passed to Stump.Update
-	Remember   bool     `json:"remember,omitempty"`
+	Deep     int  `json:"deep,omitempty"`
+	Adds     int  `json:"adds,omitempty"` // additions passed to Stump.Update
+	Remember bool `json:"remember,omitempty"`
 }
 
 type tickBudget struct {
